@@ -72,6 +72,8 @@ SHAPES = [
     ("single-root", "{ p: o { x } q: o(id: 2) { x o { x } } }", ["Query.o", "Obj.x", "Obj.o"], "single"),
     ("objects", "{ things { id ... on Obj { x } ... on Other { z } } a }", ["Query.things", "Query.a"]),
     ("empty-list", "{ el { x } a nums }", ["Query.el", "Query.a", "Query.nums"]),
+    ("schema-default-resolver", "{ a o { x y } l { x } b }", ["Query.a", "Query.b"], "full+schema-default"),
+    ("type-default-resolver", "{ o { x y o { x } } b }", ["Query.b", "Query.o"], "full+type-default"),
     ("scalar-list", "{ nums a w }", ["Query.nums", "Query.a", "Query.w"]),
     # a response key selected directly and again inside a later fragment, another key in between
     ("dup-in-fragment", "{ a ...F w } fragment F on Query { b a o { x } }", ["Query.a", "Query.b", "Query.w", "Obj.x"]),
@@ -140,6 +142,8 @@ def _override_sets(paths, tier):
         last = p.split(".")[-1]
         if last in LIST_FIELDS:
             yield {p: "lazy-err"}
+            yield {p: "as-tuple"}
+            yield {p: "as-gen"}
         if last in ABSTRACT_FIELDS:
             yield {p: "type-err"}
         if last in INT_FIELDS:
@@ -189,8 +193,8 @@ def _check_exec(case, st, tier):
         scn = dict(base, overrides=ov)
         ref, _ = H.run_config("blocking-opt", scn, None, fast=True)
         st.n("evaluations")
-        for cfg in H.CONFIGS[1:]:
-            if cfg == "blocking-gen":
+        for cfg in H.CONFIGS[1:] + (("entry-blocking", "entry-graphql") if not ov else ()):
+            if cfg in ("blocking-gen", "entry-blocking"):
                 obs, _ = H.run_config(cfg, scn, None, fast=True)
                 st.n("evaluations")
                 st.n("executions")
@@ -262,8 +266,8 @@ def replay(w):
 
         scn = w["scn"]
         ref, _ = H.run_config("blocking-opt", scn, None, fast=True)
-        if w["config"] == "blocking-gen":
-            obs, _ = H.run_config("blocking-gen", scn, None, fast=True)
+        if w["config"] in ("blocking-gen", "entry-blocking"):
+            obs, _ = H.run_config(w["config"], scn, None, fast=True)
         else:
             obs = run_once(lambda ch: _run(w["config"], scn, ch, w.get("free", True)), w["choices"])[1][0]
         if _key(obs) != _key(ref):
